@@ -33,7 +33,8 @@ import (
 
 var cmModelled = []string{
 	"path.Split(p) / path.Ext(f) / path.Join(a, b)            go_path_Split / go_path_Ext / go_path_Join2        [package path; Join with exactly two elements]",
-	"fmt.Sprintf(<string variable>, <int>)                   op_Sprintf                                        (formats with exactly one verb %v; else UnsafeFormat)",
+	"strings.ReplaceAll(s, \"old\", \"new\")                   go_strings_ReplaceAll s (s_ \"old\") (s_ \"new\")         [package strings; old and new string LITERALS, taken from the source; old not empty]",
+	"fmt.Sprintf(<string variable>, <int>)                   op_Sprintf                                        (formats of plain characters, %% and exactly one %v; else UnsafeFormat)",
 	"s[:h] on a string, a + b on strings, len(..)            str_slice s 0 h (bounds checked) / ++ / zlen",
 	"c.String(N) / c.Bool(N) / c.Int(N)                      cx_String c \"n\" / cx_Bool / cx_Int              (c the *cli.Context, N a string constant of main.go)",
 	"tms20.LoadEmbeddedTileMatrixSet(s)                      op_LoadTms L s",
@@ -135,6 +136,17 @@ type cmTr struct {
 	cur    *cmFunc
 	uses   [][2]string // flag accessor, flag name
 	cfgOK  bool
+	// the import declarations of main.go: local name -> import path
+	imports map[string]string
+}
+
+// stdPkg: the package name `name` of a modelled call must be the standard library package of that import path,
+// imported under its own name
+func (t *cmTr) stdPkg(n ast.Node, name string) error {
+	if p, ok := t.imports[name]; !ok || p != name {
+		return t.errf(n, "%s is not the standard library package %q imported under its own name (have %q)", name, name, p)
+	}
+	return nil
 }
 
 func (t *cmTr) errf(n ast.Node, f string, a ...interface{}) error {
@@ -445,7 +457,45 @@ func (t *cmTr) call(env *cmEnv, c *ast.CallExpr) (*cmCall, error) {
 	}
 	if x, ok := se.X.(*ast.Ident); ok && env.lookup(x.Name) == nil {
 		// package function
+		switch x.Name {
+		case "path", "fmt", "strings", "slices":
+			if err := t.stdPkg(c, x.Name); err != nil {
+				return nil, err
+			}
+		}
 		switch x.Name + "." + se.Sel.Name {
+		case "strings.ReplaceAll":
+			// strings.ReplaceAll(s, "old", "new"): both patterns string literals, old not empty
+			if len(c.Args) != 3 || c.Ellipsis != token.NoPos {
+				return nil, t.errf(c, "strings.ReplaceAll: expected 3 arguments")
+			}
+			sx, sk, err := t.expr(env, c.Args[0], cmStr)
+			if err != nil {
+				return nil, err
+			}
+			if sk != cmStr {
+				return nil, t.errf(c, "strings.ReplaceAll of %s", sk)
+			}
+			var lits [2]string
+			for i := 0; i < 2; i++ {
+				bl, ok := c.Args[i+1].(*ast.BasicLit)
+				if !ok || bl.Kind != token.STRING {
+					return nil, t.errf(c.Args[i+1], "strings.ReplaceAll: argument %d must be a string literal: %s", i+2, t.src(c.Args[i+1]))
+				}
+				v, err := strconv.Unquote(bl.Value)
+				if err != nil {
+					return nil, t.errf(bl, "strings.ReplaceAll: unreadable literal %s", bl.Value)
+				}
+				if i == 0 && v == "" {
+					return nil, t.errf(bl, "strings.ReplaceAll with an empty pattern is not modelled")
+				}
+				cs, ok := cmCoqString(v)
+				if !ok {
+					return nil, t.errf(bl, "strings.ReplaceAll: literal %s is not printable ASCII", bl.Value)
+				}
+				lits[i] = "(s_ " + strings.TrimSuffix(cs, "%string") + ")"
+			}
+			return &cmCall{text: "(go_strings_ReplaceAll " + sx + " " + lits[0] + " " + lits[1] + ")", results: []string{cmStr}}, nil
 		case "path.Split":
 			as, err := t.args(env, c, cmStr)
 			if err != nil {
@@ -1826,7 +1876,21 @@ func genCliMain(repo string) (string, error) {
 	if err != nil {
 		return "", err
 	}
-	t := &cmTr{fset: fset, consts: map[string]string{}, funcs: map[string]*cmFunc{}}
+	t := &cmTr{fset: fset, consts: map[string]string{}, funcs: map[string]*cmFunc{}, imports: map[string]string{}}
+	for _, im := range mainF.Imports {
+		ip, err := strconv.Unquote(im.Path.Value)
+		if err != nil {
+			return "", fmt.Errorf("main.go: unreadable import %s", im.Path.Value)
+		}
+		name := ip
+		if i := strings.LastIndex(ip, "/"); i >= 0 {
+			name = ip[i+1:]
+		}
+		if im.Name != nil {
+			name = im.Name.Name
+		}
+		t.imports[name] = ip
+	}
 	// tms20.TMID must be an alias of int
 	tmsF, err := parser.ParseFile(fset, filepath.Join(repo, "tms20", "tms20.go"), nil, 0)
 	if err != nil {
